@@ -56,7 +56,9 @@ def const_of(t):
 def signature_shapes(tier):
     S = ["bool", "Qint2", "Qint4", "Qfixed1_2", "Qchar"]
     tup = [("T", ["Qint2", "bool"]), ("T", ["bool", "bool"]), ("T", ["bool", "Qint3", "Qfixed1_2"]), ("T", [("T", ["bool", "Qint2"]), "bool"]),
-           ("L", "Qint2", 2), ("L", "bool", 3), ("T", [("L", "Qint2", 2), ("L", "Qint2", 2)])]
+           ("L", "Qint2", 2), ("L", "bool", 3), ("T", [("L", "Qint2", 2), ("L", "Qint2", 2)]),
+           # three nesting levels (an element that is a tuple of tuples / of lists)
+           ("T", [("T", [("T", ["bool", "bool"]), "Qint2"]), "bool"]), ("T", ["bool", ("T", [("L", "bool", 2), ("T", ["Qint2", "bool"])])])]
     arg_sets = [[a] for a in S + tup]
     for a in S[:4] + tup[:2]:
         for b in S[:4] + tup[:2]:
@@ -551,7 +553,7 @@ def run(tier, only=None):
     rep.add(run_pool(_dispatch, jobs, chunksize=2))
     rep.under_contract(QlassF.encode_input, QlassF.decode_output, QlassF.input_qubits.fget, QlassF.output_qubits.fget, QCircuitWrapper.decode_counts,
                        format_outcome, interpret_as_qtype)
-    rep.extra.update(shape_space=[dict(what="signatures of 1-3 arguments over bool/Qint/Qfixed/Qchar scalars, Tuple of <= 3 (one nesting level), Qlist; symbolic values",
+    rep.extra.update(shape_space=[dict(what="signatures of 1-3 arguments over bool/Qint/Qfixed/Qchar scalars, Tuple of <= 3 (up to three nesting levels), Qlist; symbolic values",
                                        complete="all values per signature shape; shapes are a finite sample of the type grammar")],
                      lemma="round trip = encode contract o qubit-order convention o C02.post o output_qubits contract o decode contract (composition of the proved clauses; "
                            "exercised end to end on the bounded program family)",
